@@ -31,7 +31,8 @@ class LQSuite(Suite):
             limit = rng.choice([1, 1, 2, 2, 3, 4])
             nops = rng.randint(3, 14) if rng.random() < 0.3 else rng.randint(10, 45)
             # bias: producer-heavy, consumer-heavy or balanced phases
-            lines = ["case 0 lq %d" % limit]
+            # one case in four: Lock = primitives::no_lock (single-threaded use is its contract; same behaviour expected)
+            lines = ["case 0 lq %d%s" % (limit, " nl" if i % 4 == 3 else "")]
             v = 100
             bias = rng.choice([0.3, 0.5, 0.7])
             for k in range(nops):
@@ -72,6 +73,7 @@ class LQSuite(Suite):
             blocked += sum(1 for l in o if l.startswith("push#") and l.split()[1] == "pending")
             parked += sum(1 for l in o if l.startswith("pop#") and l.split()[1] == "pending")
         return {"ops": ops, "pushes_blocked": blocked, "pops_parked": parked,
+                "lock_no_lock_cases": sum(1 for c in cases if c["lines"][0].split()[4:5] == ["nl"]),
                 "limits": sorted({c["lines"][0].split()[3] for c in cases if len(c["lines"][0].split()) > 3})}
 
     def oracle(self, case, out):
